@@ -59,6 +59,14 @@ def build_source(spec, mode):
             def default_res(root, ctx, info, **kw):
                 return None
             schema.register_default_resolver(tn, default_res)
+    if len(eff["order"]) % 2:
+        # a schema-wide default resolver (documented: `schema.default_resolver = fn`); it also serves the introspection
+        # types' fields, so it behaves like the library's own
+        from py_gql.execution import default_resolver as lib_default
+
+        def schema_default(root, ctx, info, **kw):
+            return lib_default(root, ctx, info, **kw)
+        schema.default_resolver = schema_default
     for n, t in eff["types"].items():
         if t["kind"] in ("interface", "union"):
             def resolve_type(value, ctx, info, _n=n):
@@ -75,7 +83,7 @@ def build_source(spec, mode):
 def attrs(schema):
     """element path -> tuple of preserved attributes (callables by identity)"""
     from py_gql import schema as S
-    out = {}
+    out = {"<schema>": {"default_resolver": id(schema.default_resolver) if schema.default_resolver else None}}
     for n, t in schema.types.items():
         if n.startswith("__") or n in GS.BUILTIN_SCALARS:
             continue
@@ -245,6 +253,8 @@ def _directly_hidden(path, hidden):
 
 
 def _elem_kind(path, a):
+    if path == "<schema>":
+        return "schema"
     if path.startswith("@"):
         return "directive"
     if "(" in path:
@@ -289,9 +299,14 @@ def run_case(case, ctx=None):
                     R = fix_type_references(src.clone())
                 else:
                     R = fix_type_references(src)
-        except GraphQLError:
+        except GraphQLError as e:
+            if kind in ("clone", "camel", "fix"):
+                # nothing these operations do to a valid schema can make it invalid: a refusal is a failure to clone / transform
+                vios.append(("C14/%s-refused/%s" % (kind, _refusal_class(e)), "step %d (%s on #%d): %r" % (step, kind, src_i, e)))
+                continue
             if ctx is not None:
                 ctx.event("step-refused:" + kind)
+                ctx.event("step-refused:%s:%s" % (kind, _refusal_class(e)))
             continue
         except Exception as e:  # noqa
             vios.append(("C14/%s-raises/%s@%s" % (kind, type(e).__name__, H.frame_of(e)), "step %d: %r" % (step, e)))
@@ -328,6 +343,11 @@ def run_case(case, ctx=None):
         if any(v[0].startswith("C14/source-") for v in vios):
             break
     return vios
+
+
+def _refusal_class(e):
+    import re
+    return type(e).__name__ + ":" + re.sub(r'"[^"]*"', '"_"', str(e).split("\n")[0])[:50]
 
 
 @st.composite
